@@ -599,6 +599,10 @@ pub enum Op {
     /// args_array should contain an array of arguments
     SuperCallSpread { dst: Register, args_array: Register },
 
+    /// After super(): when the parent constructor made the object itself (a built-in such as
+    /// Array or Map, or a constructor that returned an object), that object becomes `this`
+    AdoptSuperResult { src: Register },
+
     /// Super property get: r[dst] = super[r[key]]
     SuperGet { dst: Register, key: Register },
 
